@@ -1,36 +1,36 @@
 import json, os, shutil, glob
-W='t'
+W='u'
 rows = {
- 'C01': ("rows events with table id 0x00ffffff and STMT_END_F dropped as 'dummy' events before the table-map lookup (same idea as C15-i, judged on fidelity)",
-         "a table announced with id exactly 16777215",
-         "C01: count, event-count, order (through the boundary table ids of wave i)"),
- 'C02': ("same dummy-rows filter, judged on grouping",
-         "a table with id 16777215 inside a transaction or autocommitted",
-         "C02: grouping"),
- 'C03': ("status-variable block length of a QUERY event read as one byte (same slip as C02-k, judged on labels)",
-         "a BEGIN / COMMIT query event with 256 or more bytes of status variables",
-         "C03: content:count, end-label, resume-suffix, crash-restart-exactly-once"),
- 'C04': ("a second ROTATE before the next commit is skipped (flag cleared only by a commit)",
-         "a binlog file that is entered and left again without an accepted transaction in it, a transaction accepted in the next file, a retry",
-         "C04: reordered - **missed at first** (the C04 family had at most two files; it now has three, so an empty middle file occurs)"),
- 'C05': ("a nested BEGIN is reported through the attempt's one-slot error channel, which the reader needs for its final post",
-         "a BEGIN while another transaction is open (master crashed mid-transaction), then any end of the stream",
-         "C05: goroutine-leak:reader, stream-hang"),
- 'C06': ("the mapper's error is only looked at when it returned no table",
-         "a failing lookup that hands back a well-formed table together with its error",
-         "C06: stream-nil-on-failure - **missed at first** (a third of the failing lookups now return the table description together with the error)"),
- 'C07': ("ROTATE file names rebuilt with bytes.Map: bytes that are not valid UTF-8 become U+FFFD",
-         "a binlog base name that is not valid UTF-8 (latin1), a ROTATE, another attempt",
-         "C07: file"),
- 'C08': ("rows-event buffers of tables with only by-value columns recycled; the 'all by-value' flag is not refreshed when the id is re-announced with other column types",
-         "a table first announced with by-value columns only, re-announced under the same id and name with a by-reference type, a retained value, a later packet",
-         "C08: mutated-after-delivery - **missed at first** (re-announcements with other column types were not part of the C08 family; half of its histories now have them)"),
- 'C15': ("a DDL query evicts every cached table whose name appears as a word in its text",
-         "DDL text that contains the name of a cached table, then rows for that id without a new table map",
-         "C15: mapper-call"),
- 'C17': ("validity gate rejects events of 2^24 bytes or more",
-         "a well-formed event of at least 16 MiB (two wire fragments)",
-         "C17: rejected-well-formed (through the exact-size unit around 2^24-1 and the rule of wave j)"),
+ 'C01': ("query events with a non-zero error code skipped ('the statement failed on the master')",
+         "a DDL / DML query event logged with an error code",
+         "C01: count, event-count, order (through the killed-statement error codes of wave q)"),
+ 'C02': ("memory bound: an open transaction is committed and re-opened at its 16384th row event",
+         "a transaction with at least 16384 row events",
+         "C02: early-delivery, grouping - **missed at first** (bulk transactions went up to 4100 statements; one in five now has 16400)"),
+ 'C03': ("an unknown-category statement resets the transaction state (buffered changes dropped, autocommit on)",
+         "SAVEPOINT (or any unknown statement) between BEGIN and the commit with a row change behind it",
+         "C03: content:extra-call, resume-suffix, crash-restart-exactly-once"),
+ 'C04': ("accepting the empty transaction of a ROLLBACK does not move the position",
+         "a rolled-back group accepted as last transaction of an attempt, then a retry",
+         "C04: resume-coordinate"),
+ 'C05': ("Stream holds a mutex for its whole run and SetBinlogPosition takes it",
+         "a handler that calls SetBinlogPosition on the Streamer that is delivering to it",
+         "C05: hang - **missed at first**, two changes: a sixth of the attempts now have a handler that records its progress with SetBinlogPosition(tx.NextPosition), and the process watchdog attributes a case that cannot step because library code waits for a sync lock (not only one that spins)"),
+ 'C06': ("a TABLE_MAP whose metadata block is longer than its columns account for is accepted when the master announces an 8.x version",
+         "an 8.x format description and a table map with an over-long metadata block",
+         "C06: stream-nil-on-failure - **missed at first** (the decode-failure unit now also comes as a table map whose metadata block is two bytes too long)"),
+ 'C07': ("a recover() in Stream turns a callback panic into an error and stores Stream's still-zero local position",
+         "a handler / mapper panic, then another Stream call",
+         "C07: offset - **missed at first** (panicking callbacks are now part of the C07 family; when the panic comes *out of* Stream the next request may be for the position that call started from, when Stream returns an error the stored position must be right)"),
+ 'C08': ("per-connection ring of 1026 copy buffers behind a 1024-deep event channel",
+         "a retained by-reference value and 1026 further packets on the same connection",
+         "C08: later-delivery-corrupted, mutated-after-delivery"),
+ 'C15': ("schema / table names interned process-wide by (length, first 64 bytes)",
+         "two names of the same length that agree in their first 64 bytes",
+         "C15: attribution, mapper-call, wrong-table - **missed at first** (one history in twelve now has two tables whose names or schemas are 65..200 bytes long and differ in one late byte)"),
+ 'C17': ("TypeName() of ignored events looked up in a 39-entry table while a transaction is open",
+         "a well-formed event of type 39 or above between BEGIN and its commit",
+         "C17: panic"),
 }
 for p,(chg,needs,caught) in rows.items():
     src=f'/tmp/wt-{p}-{W}/_seeded'
